@@ -102,8 +102,13 @@ fn f64s(v: &[agdb::DbF64]) -> Vec<f64> {
 ///  * >, >=, <, <=: same type and the natural order holds.
 ///  * Contains: string/substring; string/all listed substrings; list/element;
 ///    list/all listed elements; anything else false (bytes, scalars, other types).
-///  * StartsWith/EndsWith: string/prefix(suffix); list/first(last) element;
-///    list/leading(trailing) sub-list; anything else false.
+///  * Contains with a list operand is element-wise ("vectorized version of the base
+///    type", documented example `Contains(vec!["bc","ef"])` on "abcdefg"): every
+///    listed element must be contained; repetitions and the length of the list do
+///    not matter, the empty list is contained in everything of a matching type.
+///  * StartsWith/EndsWith: string/prefix(suffix); list/first(last) element; with a
+///    list operand judged only where "the list is a leading(trailing) sub-sequence"
+///    and "every listed element matches at the beginning(end)" agree; anything else false.
 pub fn ref_compare(cmp: &Comparison, stored: &DbValue) -> Option<bool> {
     let operand = comparison_operand(cmp);
     match cmp {
@@ -142,19 +147,33 @@ pub fn ref_compare(cmp: &Comparison, stored: &DbValue) -> Option<bool> {
                 }
                 if start { s[..o.len()] == *o } else { s[s.len() - o.len()..] == *o }
             }
+            // A list operand ("vectorized") can be read in two ways: the list as a sequence
+            // must be a prefix/suffix (what slices and concatenated strings do), or - "the same
+            // semantics as Contains" - every listed element on its own must match at the
+            // beginning/end. Where the two readings disagree the cell is not judged.
+            fn agree(a: bool, b: bool) -> Option<bool> {
+                if a == b { Some(a) } else { None }
+            }
+            fn list_affix<T: PartialEq>(s: &[T], o: &[T], start: bool) -> Option<bool> {
+                let edge = if start { s.first() } else { s.last() };
+                agree(affix(s, o, start), o.iter().all(|x| Some(x) == edge))
+            }
             match (stored, operand) {
                 (DbValue::String(s), DbValue::String(o)) => Some(if start { s.starts_with(o.as_str()) } else { s.ends_with(o.as_str()) }),
-                // "vectorized" prefix of a string is not defined by the documentation
-                // (all of them? their concatenation?): not judged
-                (DbValue::String(_), DbValue::VecString(_)) => None,
+                (DbValue::String(s), DbValue::VecString(o)) => {
+                    let joined = o.concat();
+                    let sequence = if start { s.starts_with(joined.as_str()) } else { s.ends_with(joined.as_str()) };
+                    let each = o.iter().all(|x| if start { s.starts_with(x.as_str()) } else { s.ends_with(x.as_str()) });
+                    agree(sequence, each)
+                }
                 (DbValue::VecI64(s), DbValue::I64(o)) => Some(affix(s, &[*o], start)),
-                (DbValue::VecI64(s), DbValue::VecI64(o)) => Some(affix(s, o, start)),
+                (DbValue::VecI64(s), DbValue::VecI64(o)) => list_affix(s, o, start),
                 (DbValue::VecU64(s), DbValue::U64(o)) => Some(affix(s, &[*o], start)),
-                (DbValue::VecU64(s), DbValue::VecU64(o)) => Some(affix(s, o, start)),
+                (DbValue::VecU64(s), DbValue::VecU64(o)) => list_affix(s, o, start),
                 (DbValue::VecF64(s), DbValue::F64(o)) => Some(affix(&f64s(s), &[o.to_f64()], start)),
-                (DbValue::VecF64(s), DbValue::VecF64(o)) => Some(affix(&f64s(s), &f64s(o), start)),
+                (DbValue::VecF64(s), DbValue::VecF64(o)) => list_affix(&f64s(s), &f64s(o), start),
                 (DbValue::VecString(s), DbValue::String(o)) => Some(affix(s, std::slice::from_ref(o), start)),
-                (DbValue::VecString(s), DbValue::VecString(o)) => Some(affix(s, o, start)),
+                (DbValue::VecString(s), DbValue::VecString(o)) => list_affix(s, o, start),
                 _ => Some(false),
             }
         }
